@@ -1297,9 +1297,13 @@ def build_entry(env: Env, e: dict, cfg: dict, placement: dict):
             raise HarnessError("context managers only offer call")
 
         def run_ctx():
-            kw = call_kwargs()
-            kw.update(call_level_callbacks(env, placement, is_async))
-            ctx = target.context(**kw)
+            def bound_arguments():
+                kw = call_kwargs()
+                kw.update(call_level_callbacks(env, placement, is_async))
+                return kw
+
+            # like user code: policy.context(abort_if=Deadline(30).expired, ...) - nobody else keeps the arguments
+            ctx = target.context(**bound_arguments())  # (reference counting frees unreferenced arguments at once)
             # the context manager forwards positional and keyword arguments to the operation
             def sop(a, b=None, *, c=None):
                 env.check_args("context", (a, b, c))
